@@ -90,7 +90,7 @@ def check_case(case):
 
 OPS = ['delete', 'duplicate', 'swap', 'move', 'truncate', 'retag', 'orphan-trailer', 'dup-trailer', 'bad-count', 'empty-segment',
        'blank-segment', 'sep-only-segment', 'no-elements', 'extra-elements', 'extra-components', 'long-segment', 'second-isa',
-       'unknown-gs08', 'bad-isa12', 'leading-blank', 'trailing-seps', 'bad-bht02', 'bad-hl', 'lowercase-id', 'isa-15-elements', 'delete-header', 'garble-element', 'garble-element', 'bad-lx', 'extra-elements', 'empty-first-component', 'empty-first-component', 'trailer-before-header', 'append-orphan-envelope', 'pile-up', 'pile-up', 'pile-up']
+       'unknown-gs08', 'bad-isa12', 'leading-blank', 'trailing-seps', 'bad-bht02', 'bad-hl', 'lowercase-id', 'isa-15-elements', 'delete-header', 'garble-element', 'garble-element', 'bad-lx', 'extra-elements', 'empty-first-component', 'empty-first-component', 'trailer-before-header', 'append-orphan-envelope', 'pile-up', 'pile-up', 'pile-up', 'foreign-st01', 'foreign-st01']
 
 
 def mutate(text, ch, nops):
@@ -196,6 +196,15 @@ def mutate(text, ch, nops):
                 j = k[ch.integer(0, len(k) - 1)]
                 segs[j] = ch.choice(['HL', 'HL' + ele, 'HL' + ele + 'X', 'HL%s1%sX%s20%s1' .replace('%s', ele), 'HL%s%s%s' .replace('%s', ele),
                                      ele.join(['HL', '7' * 4500, '1', '20', '1']), ele.join(['HL', '2', '3' * 4400, '20', '1'])])
+        elif op == 'foreign-st01':
+            # a set the map of its group does not list: its ST finds no place, its SE does
+            k = [j for j, s in enumerate(segs) if s.split(ele)[0] == 'ST']
+            if k:
+                j = k[ch.integer(0, len(k) - 1)]
+                p = segs[j].split(ele)
+                if len(p) > 1:
+                    p[1] = ch.choice(['999', 'ZZZ', '830', '', '997', '27'])
+                    segs[j] = ele.join(p)
         elif op == 'garble-element':
             p = segs[i].split(ele)
             if len(p) > 1:
